@@ -15,7 +15,8 @@ LEVEL = "exploration"
 EXHAUSTIVE = True
 RULE = ("case = one random schema (3-7 fields drawn from 18 field kinds: required/nullable/defaulted/factory/NaN/"
         "tuple/UUID/enum/Decimal defaults, serialize='omit', nested and optional nested dataclass with its own "
-        "options; aliases from metadata / Annotated / Config.aliases). For the schema the option lattice "
+        "options; aliases from metadata / Annotated / Config.aliases; in ~40% of the schemas the fields are spread "
+        "over two bases M(P1, P2) that declare one field with different defaults and aliases). For the schema the option lattice "
         "{unset,False,True}^3 (omit_none, omit_default, serialize_by_alias) x sort_keys x lazy_compilation x 6 "
         "code-generation flag subsets x {no Config.dialect, 2 dialect option vectors} is enumerated EXHAUSTIVELY; "
         "every class is called with every keyword vector its flags allow (and a call dialect when supported) on 4 "
@@ -84,6 +85,9 @@ KINDS = {
     "tuple_uuid": ("Tuple[uuid.UUID, ...]", "(uuid.UUID(int=1),)", False, [(uuid.UUID(int=1),), ()], lambda v: [str(x) for x in v]),
 }
 NAMES = ["z", "a", "m", "c", "q", "b", "k", "y", "d"]
+# another default for the same annotation (one of the kind's instance values): what the losing base declares
+ALT_DEFAULT = {"opt_str": "'x'", "opt_zero": "3", "int_dflt": "8", "opt_none": "5", "opt_date": "None", "opt_empty": "'x'",
+               "date_dflt": "datetime.date(2010, 1, 1)", "dec": "decimal.Decimal('2')", "opt_false": "True", "opt_date_none": "datetime.date(2021, 3, 4)"}
 
 
 def gen_schema(rng):
@@ -100,6 +104,20 @@ def gen_schema(rng):
         if kind == "omit" and alias_src == "ann":
             alias_src = None
         fields.append({"name": name, "kind": kind, "alias_src": alias_src, "alias": f"AL_{name}" if alias_src else None})
+    # two bases declaring the same field differently: M(P1, P2); dataclasses (and the property's "field default" /
+    # "alias") take P1's declaration (the reversed MRO is walked root first, P1 last)
+    inherit = None
+    shared = [f for f in fields if f["kind"] in ALT_DEFAULT and f["alias_src"] in (None, "meta")]
+    if shared and rng.random() < 0.45:
+        sh = rng.choice(shared)
+        req = [f for f in fields if f["kind"].startswith("req_")]
+        rest = [f for f in fields if f not in req and f is not sh]
+        rng.shuffle(rest)
+        cut = rng.randint(0, len(rest))
+        fields = req + [sh] + rest[:cut] + rest[cut:]
+        inherit = {"shared": sh["name"], "p2": [f["name"] for f in req], "p1": [f["name"] for f in rest[:cut]],
+                   "leaf": [f["name"] for f in rest[cut:]], "mixin_on": rng.choice(["p2", "leaf"]),
+                   "stale_alias": rng.random() < 0.7}
     nested_cfg = {
         "omit_none": rng.choice(TRI), "omit_default": rng.choice(TRI), "serialize_by_alias": rng.choice(TRI),
         "flags": rng.choice(FLAGSETS),
@@ -109,7 +127,7 @@ def gen_schema(rng):
         dv = {o: rng.choice([True, False]) for o in ("omit_none", "omit_default", "serialize_by_alias") if rng.random() < 0.6}
         dialect_vectors.append(dv or {"omit_none": True})
     call_vector = {o: rng.choice([True, False]) for o in ("omit_none", "omit_default", "serialize_by_alias") if rng.random() < 0.7} or {"serialize_by_alias": True}
-    return {"fields": fields, "nested_cfg": nested_cfg, "dialect_vectors": dialect_vectors, "call_vector": call_vector}
+    return {"fields": fields, "nested_cfg": nested_cfg, "dialect_vectors": dialect_vectors, "call_vector": call_vector, "inherit": inherit}
 
 
 def cfg_lines(on, od, ba, extra=()):
@@ -147,9 +165,49 @@ def class_src(schema, name, on, od, ba, sort_keys, flags, lazy, dvec):
     lines = []
     if dvec is not None:
         lines += [f"class D_{name}(Dialect):"] + [f"    {k} = {v}" for k, v in dvec.items()]
-    lines += ["@dataclass", f"class {name}(DataClassDictMixin):"]
+    inh = schema.get("inherit")
+    by_name = {f["name"]: f for f in schema["fields"]}
     cfg_aliases = {}
-    for f in schema["fields"]:
+
+    def field_line(f, stale=False):
+        ann, dsrc, fac, values, enc = KINDS[f["kind"]]
+        if f["alias_src"] == "ann":
+            ann = f"Annotated[{ann}, Alias({f['alias']!r})]"
+        meta = []
+        if stale:
+            dsrc = ALT_DEFAULT[f["kind"]]
+            if inh["stale_alias"]:
+                meta.append(f"alias={'STALE_' + f['name']!r}")
+        elif f["alias_src"] == "meta":
+            meta.append(f"alias={f['alias']!r}")
+        if f["alias_src"] == "cfg":
+            cfg_aliases[f["name"]] = f["alias"]
+        if f["kind"] == "omit":
+            meta.append("serialize='omit'")
+        args = []
+        if dsrc is not None:
+            args.append(f"default_factory=lambda: {dsrc}" if fac else f"default={dsrc}")
+        if meta:
+            args.append(f"metadata=field_options({', '.join(meta)})")
+        line = f"    {f['name']}: {ann}"
+        if args:
+            if len(args) == 1 and args[0].startswith("default="):
+                line += " = " + args[0][8:]
+            else:
+                line += f" = field({', '.join(args)})"
+        return line
+    if inh:
+        mix = "(DataClassDictMixin)" if inh["mixin_on"] == "p2" else ""
+        lines += ["@dataclass", f"class P2_{name}{mix}:"] + [field_line(by_name[n]) for n in inh["p2"]] + [field_line(by_name[inh["shared"]], stale=True)]
+        lines += ["@dataclass", f"class P1_{name}:"] + [field_line(by_name[inh["shared"]])] + [field_line(by_name[n]) for n in inh["p1"]]
+        lines += ["@dataclass", f"class {name}(P1_{name}, P2_{name}" + (", DataClassDictMixin" if inh["mixin_on"] == "leaf" else "") + "):"]
+        own = [by_name[n] for n in inh["leaf"]]
+    else:
+        lines += ["@dataclass", f"class {name}(DataClassDictMixin):"]
+        own = schema["fields"]
+    for f in own:
+        lines.append(field_line(f))
+    for f in []:
         ann, dsrc, fac, values, enc = KINDS[f["kind"]]
         if f["alias_src"] == "ann":
             ann = f"Annotated[{ann}, Alias({f['alias']!r})]"
@@ -236,7 +294,9 @@ def run_case(seed, tier, rec, st):
         fam.exec_src("class CallD(Dialect):\n" + "\n".join(f"    {k} = {v}" for k, v in callvec.items()) + "\n")
         CallD = mod.CallD
         idx = 0
-        schema_sig = tuple((f["kind"], f["alias_src"]) for f in schema["fields"])
+        schema_sig = tuple((f["kind"], f["alias_src"]) for f in schema["fields"]) + (bool(schema["inherit"]),)
+        if schema["inherit"]:
+            rec.count("schemas_with_two_bases")
         sampled = False
         # instances: per-field value picks (source strings are evaluated inside the family module)
         value_rows = []
